@@ -33,6 +33,15 @@ impl AttributeType {
 impl Clone for EncoderContext {
 //@item! stun_rs :: mod context > impl ::core::clone::Clone for EncoderContext > fn clone
 }
+impl Default for EncoderContext {
+//@item! stun_rs :: mod context > impl ::core::default::Default for EncoderContext > fn default
+}
+impl EncoderContext {
+//@item stun_rs :: mod context > impl EncoderContext > fn padding
+//@spec
+    ensures r == DEFAULT_PADDING_VALUE,
+//@end
+}
 //@item! stun_rs :: mod context > struct AttributeEncoderContext
 impl<'a> AttributeEncoderContext<'a> {
 //@item stun_rs :: mod context > impl<'a> AttributeEncoderContext<'a> > fn new
@@ -92,8 +101,9 @@ pub trait EncodeAttributeValue {
     spec fn wire(&self, enc: Seq<u8>) -> Seq<u8>;
     spec fn encodable(&self, enc: Seq<u8>) -> bool;
     fn encode(&self, ctx: AttributeEncoderContext) -> (r: Result<usize, StunError>)
+        // (that the value buffer keeps its length is a fact of Rust's `&mut [u8]`, not a property an implementation can
+        // break; the caller - unit codec - takes it from the type, it is not restated here)
         ensures
-            final(ctx.raw_value)@.len() == old(ctx.raw_value)@.len(),
             r is Ok <==> self.encodable(ctx.encoded_msg@) && old(ctx.raw_value)@.len() >= self.wire(ctx.encoded_msg@).len(),
             r is Ok ==> r->Ok_0 == self.wire(ctx.encoded_msg@).len()
                 && final(ctx.raw_value)@.subrange(0, r->Ok_0 as int) == self.wire(ctx.encoded_msg@)
